@@ -295,6 +295,44 @@ func sameLocalLoad(a, b ssa.Value) bool {
 // madeWithLen: x is make([]T, n) (possibly through a phi-free local) and bound is n.
 func madeWithLen(x ssa.Value, bound ssa.Value) bool {
 	found := false
+	isMadeWith := func(v ssa.Value) bool {
+		ms, ok := v.(*ssa.MakeSlice)
+		return ok && (ms.Len == bound || stripConv(ms.Len) == stripConv(bound) || sameLenCall(ms.Len, bound))
+	}
+	// x was put, in a dominating block of the same function, into the field or map element it is now read from:
+	//   base.f = make(T, n) ... base.f[i]        m[k] = make(T, n) ... m[k][i]
+	if inst, ok := x.(ssa.Instruction); ok && inst.Parent() != nil {
+		fn := inst.Parent()
+		if f, base := fieldLoad(x); f != nil {
+			for _, b := range fn.Blocks {
+				for _, in := range b.Instrs {
+					if sf, sbase, val := fieldStore(in); sf == f && sbase == base && isMadeWith(val) && b.Dominates(inst.Block()) {
+						return true
+					}
+				}
+			}
+		}
+		var lk *ssa.Lookup
+		switch y := x.(type) {
+		case *ssa.Lookup:
+			lk = y
+		case *ssa.Extract:
+			lk, _ = y.Tuple.(*ssa.Lookup)
+		}
+		if lk != nil {
+			for _, b := range fn.Blocks {
+				for _, in := range b.Instrs {
+					mu, ok := in.(*ssa.MapUpdate)
+					if !ok || !isMadeWith(mu.Value) || !b.Dominates(inst.Block()) {
+						continue
+					}
+					if (mu.Map == lk.X || sameValueExpr(mu.Map, lk.X)) && (mu.Key == lk.Index || sameValueExpr(mu.Key, lk.Index)) {
+						return true
+					}
+				}
+			}
+		}
+	}
 	backSlice(x, func(v ssa.Value) bool {
 		if ms, ok := v.(*ssa.MakeSlice); ok {
 			if ms.Len == bound || stripConv(ms.Len) == stripConv(bound) {
